@@ -215,8 +215,8 @@ func c03Check(before, after *oci.Spec, e *specs.ContainerEdits, sig *c03Sig, c *
 			continue
 		}
 		for _, d := range adev {
-			if d.Path == p && normJSON(d) != normJSON(w) {
-				fail("devices", "device %s is %s, expected (last edit, host info and uid/gid filled in) %s", p, normJSON(d), normJSON(w))
+			if d.Path == p && exactJSON(d) != exactJSON(w) {
+				fail("devices", "device %s is %s, expected (last edit, host info and uid/gid filled in) %s", p, exactJSON(d), exactJSON(w))
 			}
 		}
 	}
@@ -233,8 +233,8 @@ func c03Check(before, after *oci.Spec, e *specs.ContainerEdits, sig *c03Sig, c *
 			aOther = append(aOther, d)
 		}
 	}
-	if normJSON(bOther) != normJSON(aOther) {
-		fail("devices", "untouched device nodes changed: before %s after %s", normJSON(bOther), normJSON(aOther))
+	if exactJSON(bOther) != exactJSON(aOther) {
+		fail("devices", "untouched device nodes changed: before %s after %s", exactJSON(bOther), exactJSON(aOther))
 	}
 	if len(e.DeviceNodes) > 0 {
 		c.Count("clause:devices", 1)
@@ -250,14 +250,14 @@ func c03Check(before, after *oci.Spec, e *specs.ContainerEdits, sig *c03Sig, c *
 		sig.add("dev%v%v%v", replaced, defaulted, looked)
 	}
 	// ---- cgroup rules: old list is a prefix, suffix = rules of the b/c nodes in order
-	if len(arules) < len(brules) || normJSON(arules[:len(brules)]) != normJSON(brules) {
-		fail("cgroup", "existing device cgroup rules are not a prefix of the result: before %s after %s", normJSON(brules), normJSON(arules))
+	if len(arules) < len(brules) || exactJSON(arules[:len(brules)]) != exactJSON(brules) {
+		fail("cgroup", "existing device cgroup rules are not a prefix of the result: before %s after %s", exactJSON(brules), exactJSON(arules))
 	} else {
 		dedup := func(rs []oci.LinuxDeviceCgroup) []string {
 			var out []string
 			s := map[string]bool{}
 			for _, r := range rs {
-				k := normJSON(r)
+				k := exactJSON(r) // a rule without minor (= every minor) is not the rule for minor 0
 				if !s[k] {
 					s[k] = true
 					out = append(out, k)
@@ -392,8 +392,8 @@ func c03Check(before, after *oci.Spec, e *specs.ContainerEdits, sig *c03Sig, c *
 				want = append(want, oci.Hook{Path: h.Path, Args: h.Args, Env: h.Env, Timeout: h.Timeout})
 			}
 		}
-		if got := stage(after.Hooks, name); normJSON(got) != normJSON(want) && (len(got) > 0 || len(want) > 0) {
-			fail("hooks", "%s hooks are %s, expected the old ones followed by the edits' in order: %s", name, normJSON(got), normJSON(want))
+		if got := stage(after.Hooks, name); exactJSON(got) != exactJSON(want) && (len(got) > 0 || len(want) > 0) {
+			fail("hooks", "%s hooks are %s, expected the old ones followed by the edits' in order: %s", name, exactJSON(got), exactJSON(want))
 		}
 	}
 	if len(e.Hooks) > 0 {
@@ -459,7 +459,7 @@ func c03Check(before, after *oci.Spec, e *specs.ContainerEdits, sig *c03Sig, c *
 				x.Linux.Resources.Devices = nil
 			}
 		}
-		return normJSON(x)
+		return normJSON(x) // a section created empty to hold an edit is no change
 	}
 	if b, a := strip(before), strip(after); b != a {
 		fail("rest", "something else in the OCI spec changed: before %s after %s", b, a)
